@@ -95,7 +95,7 @@ class AbstractReportPart(PropertyBasedPMType):
 
 class AbstractReport(MessageType):
     MdibVersion = cp.IntegerAttributeProperty('MdibVersion', implied_py_value=0)
-    SequenceId = cp.StringAttributeProperty('SequenceId')
+    SequenceId = cp.StringAttributeProperty('SequenceId', is_optional=False)
     InstanceId = cp.IntegerAttributeProperty('InstanceId')
     _props = ('MdibVersion', 'SequenceId', 'InstanceId')
     additional_namespaces = (default_ns_helper.XSI,)
@@ -117,7 +117,7 @@ class ReportPartValuesList(AbstractReportPart):
 class MetricReportPart(ReportPartValuesList):
     MetricState = cp.ContainerListProperty(
         msg.MetricState,
-        value_class=AbstractContextStateContainer,
+        value_class=AbstractMetricStateContainer,
         cls_getter=get_state_container_class,
         ns_helper=default_ns_helper,
     )
@@ -463,7 +463,7 @@ class AbstractSet(MessageType):
 
 class AbstractGetResponse(MessageType):
     MdibVersion = cp.IntegerAttributeProperty('MdibVersion', implied_py_value=0)
-    SequenceId = cp.StringAttributeProperty('SequenceId')
+    SequenceId = cp.StringAttributeProperty('SequenceId', is_optional=False)
     InstanceId = cp.IntegerAttributeProperty('InstanceId')
     _props = ('MdibVersion', 'SequenceId', 'InstanceId')
 
@@ -579,7 +579,7 @@ class GetDescriptorResponse(AbstractGetResponse):
     Descriptor = cp.ContainerListProperty(
         msg.Descriptor,
         value_class=AbstractDescriptorContainer,
-        cls_getter=get_state_container_class,
+        cls_getter=get_descriptor_container_class,
         ns_helper=default_ns_helper,
     )
     _props = ('Descriptor',)
@@ -623,7 +623,7 @@ class GetContextStatesByIdentification(AbstractGet):
     action = Actions.GetContextStatesByIdentification
     Identification = cp.SubElementListProperty(msg.Identification, value_class=InstanceIdentifier)
     ContextType = cp.QNameAttributeProperty('ContextType')
-    _props = ('HandleRef',)
+    _props = ('Identification', 'ContextType')
 
 
 class GetContextStatesByIdentificationResponse(AbstractGetResponse):
@@ -642,7 +642,7 @@ class GetContextStatesByFilter(AbstractGet):
     NODETYPE = msg.GetContextStatesByFilter
     action = Actions.GetContextStatesByFilter
     Filter = cp.SubElementStringListProperty(msg.Filter)
-    _props = ('HandleRef',)
+    _props = ('Filter',)
 
 
 class GetContextStatesByFilterResponse(AbstractGetResponse):
